@@ -116,7 +116,7 @@ def summarise_loop(ip, pc, rec, exits, safety=()):
             if position_arithmetic(f, counters) or f in safety:
                 continue      # bounds / no-panic side conditions: true of every run that gets this far
             g = T.subst(f, sigma)
-            if insts_of(g):
+            if hi in insts_of(g):
                 return None
             out.append(g)
         return out
@@ -202,14 +202,20 @@ def closed_values(ip, rec, exits):
     # element-wise definitions number the elements from 0 (the convention of the `collect` summary): position = e0 + k
     sigma_abs = sigma
     sigma = {c: T.mk_add(ev, K) for c, ev in counters.items()}
+    base = set(rec['snapshot'].pc)
     for V, (entry, loc) in rec.get('vec_heads', {}).items():
         ts = set()
         kind = None
+        keeps = []
+        skipped = False
         for bst, cur in rec['backs']:
             c = cur.get(V)
             if c is None:
                 kind = 'bad'
                 break
+            if c == V:
+                skipped = True        # nothing appended on this way round the loop (a filtered element)
+                continue
             if c[0] == 'list' and len(c[1]) == 2 and c[1][0][0] == 'slice' and c[1][0][1] == V and c[1][1][0] == 'one':
                 k2, t = 'push', c[1][1][1]
             elif c[0] == 'upd*' and c[1] == V and len(c[2]) == 1:
@@ -226,13 +232,29 @@ def closed_values(ip, rec, exits):
                 break
             kind = k2
             t = T.subst(t, sigma)
-            if insts_of(t):
+            if hi in insts_of(t):
                 kind = 'bad'
                 break
             ts.add(t)
+            # the condition under which this way round the loop is taken (for a conditional push)
+            d = []
+            for f in bst.pc:
+                if f in base or f in bst.safety or position_arithmetic(f, counters):
+                    continue
+                g = T.subst(f, sigma)
+                if hi in insts_of(g):
+                    d = None
+                    break
+                d.append(g)
+            keeps.append(None if d is None else T.conj(d))
         if kind in (None, 'bad') or len(ts) != 1:
             continue
         body = ts.pop()
+        if skipped:
+            if kind != 'push' or entry != ('list', ()) or any(k_ is None for k_ in keeps):
+                continue
+            out[V] = (('filtermap', dom, K, T.disj(keeps), body), None)
+            continue
         m = ('map', dom, K, body)
         T.typed(('len', m), 'usize')
         if kind == 'push':
@@ -242,7 +264,7 @@ def closed_values(ip, rec, exits):
         else:
             # every slot written exactly once: the vector had the domain's length on entry (index writes keep it)
             snap = rec['snapshot']
-            if isinstance(entry, tuple) and not insts_of(entry) and ip.entails(snap, T.mk_cmp('eq', T.typed(('len', entry), 'usize'), n_dom)):
+            if isinstance(entry, tuple) and hi not in insts_of(entry) and ip.entails(snap, T.mk_cmp('eq', T.typed(('len', entry), 'usize'), n_dom)):
                 out[V] = (m, n_dom)
     for hv, ev in rec['mapping']:
         if hv in counters or hv[0] != 'var' or hv in out:
@@ -256,11 +278,11 @@ def closed_values(ip, rec, exits):
                 ok = False
                 break
             b = T.subst(T.subst(c, sigma_abs), {hv: A2})
-            if insts_of(b):
+            if hi in insts_of(b):
                 ok = False
                 break
             bodies.add(b)
-        if ok and len(bodies) == 1 and isinstance(ev, tuple) and not insts_of(ev):
+        if ok and len(bodies) == 1 and isinstance(ev, tuple) and hi not in insts_of(ev):
             t = ('fold', dom, ev, A2, K, bodies.pop())
             if T.TYPES.get(hv):
                 T.TYPES.setdefault(t, T.TYPES.get(hv))
@@ -445,3 +467,28 @@ def summarise_all(ip, outs):
             res.append(a)
             done[i] = True
     return res
+
+
+def close_term(ip, st, t):
+    """t with the loop-carried objects of finished, exhausted loops replaced by their closed forms (closed_values);
+    used on terms recorded while a path was still running, e.g. the arguments of a call made after an inner loop"""
+    for _ in range(4):
+        hs = insts_of(t)
+        if not hs:
+            return t
+        changed = False
+        for hi in sorted(hs, key=lambda x: -x[1]):
+            rec = ip.loop_records.get(hi)
+            if rec is None:
+                continue
+            try:
+                cv = closed_values(ip, rec, st.loop_exits)
+            except Exception:
+                cv = {}
+            one = {V: c for V, (c, n) in cv.items()}
+            t2 = T.subst(t, one) if one else t
+            if t2 != t:
+                t, changed = t2, True
+        if not changed:
+            break
+    return t
